@@ -147,9 +147,17 @@ fn differs(a: &BuildOut, b: &BuildOut) -> bool {
     a.outcome.tag() != b.outcome.tag() || (a.outcome == Outcome::Success && a.tree != b.tree)
 }
 
+/// Counts per class, not file names: names may depend on hidden process state (that is what
+/// a violation of this property looks like) and the message has to replay exactly.
 fn describe_diff(a: &Tree, b: &Tree) -> String {
     let d = diff_trees(a, b);
-    format!("{:?}", d.iter().take(6).collect::<Vec<_>>())
+    let count = |c: &str| d.iter().filter(|(k, _)| *k == c).count();
+    format!(
+        "{} files differ in content, {} only in the first build, {} only in the second",
+        count("stale-content"),
+        count("extra"),
+        count("missing")
+    )
 }
 
 pub fn run_case(case: &Json) -> Result<(Option<(String, String)>, u64), String> {
